@@ -5,7 +5,7 @@ wt=$(mktemp -d /tmp/wt_rq.XXXXXX)
 rsync -a --exclude .git --exclude _out /repo/ $wt/
 if ! patch -p1 -s -f -d $wt -i $d/patch.diff >/dev/null 2>&1; then echo "== $d PATCH DOES NOT APPLY"; rm -rf $wt; exit 0; fi
 sc=$(mktemp -d /tmp/vsc.XXXXXX)
-out=$(/verif/bin/vcheck -repo $wt -property all -verif $sc | grep "^REPORT\|^note:" | sed "s#$wt/##g" | cut -c1-420)
+out=$(${VCHECK:-/verif/bin/vcheck} -repo $wt -property all -verif $sc | grep "^REPORT\|^note:" | sed "s#$wt/##g" | cut -c1-420)
 rm -rf $wt $sc
 echo "== $d alarms=$(echo "$out" | grep -c '^REPORT')"
 echo "$out" | grep -v "^$"
